@@ -85,6 +85,8 @@ class Prop:
             for k, v in list(a.items()):
                 if isinstance(v, dict) and "k" in v and v["k"] not in AGNOSTIC_KINDS:
                     a[k] = None
+                if isinstance(v, dict) and v.get("k") == "acc":
+                    v["r"] = 0  # the accumulator variant with odd r looks at the truthiness of the element: not value-agnostic, model mode only
                 if ((k == "d" and n["op"] in VALUE_D) or (k == "v" and n["op"] in VALUE_V)) and not isinstance(v, list):
                     a[k] = rng.choice(TOKENS)
                 if k == "v" and n["op"] in VALUE_V and isinstance(v, list):
